@@ -112,7 +112,8 @@ def finish(ctx, t0, seed=0, extra_cov=None):
     for ob in ctx.obs:
         if ob.ok:
             continue
-        kk = known_keys.get((ctx.prop, ob.key))
+        base_key = ob.key[:-4] if ob.key.endswith("@rel") else ob.key
+        kk = known_keys.get((ctx.prop, base_key))   # the same construct in either configuration
         if kk is not None:
             kf.append((ob, kk))
         else:
